@@ -186,7 +186,7 @@ pub fn run(report: &Report, thorough: bool) -> Evidence {
                     let got = match ctx.apply(reph) {
                         Ok(Out::Sugg(r)) => r.text(),
                         other => {
-                            report.add(Violation::new("C13", "panic", "panic:class-sweep").opts(&o).feat("pre", crate::bn::esc(p)).events(&[reph.clone()]).detail(format!("reph on {:?} (state set directly): {:?}", p, other)));
+                            report.add(Violation::new("C13", "panic", "panic:class-sweep").opts(&o).feat("pre", crate::bn::esc(p)).origin(p, "", 0).events(&[reph.clone()]).detail(format!("reph on {:?} (state set directly): {:?}", p, other)));
                             continue;
                         }
                     };
@@ -197,7 +197,7 @@ pub fn run(report: &Report, thorough: bool) -> Evidence {
                             Violation::new("C13", "reph-placement", &format!("placement:sweep:{}", if crate::bn::is_consonant(last) { "C".to_string() } else { crate::bn::esc(&last.to_string()) }))
                                 .opts(&o)
                                 .feat("pre", crate::bn::esc(p))
-                                .feat("synthetic_state", "true")
+                                .origin(p, "", 0)
                                 .events(&[reph.clone()])
                                 .detail(format!("reph on {:?} (state set directly) gave {:?}, expected {:?}", p, got, exp)),
                         );
